@@ -393,6 +393,34 @@ def run_C10(run):
                     run.add([V(f'C10|lookalike|{src}', f"{src} -> {str(r)!r} which re rejects", f"from mc import rx\nassert rx.compiles(str({src}))[0]")])
             except Exception as e:  # noqa: BLE001
                 run.add([V(f'C10|lookalike|{src}', f"{src}: raised {type(e).__name__} for fixed-width literal assertions", f"r = {src}")])
+    # structured fixed-width assertion patterns in all six lookaround forms: accepted, and equivalent to the reference
+    structured = ["Group(Pregex('a') + Either('b', 'c'))", "Group(Either('a', 'b') + 'c')", "Group(Group('a'))", "Capture(Group('ab'))",
+                  "Either(Group('ab'), Group('cd'))", "Group(Either('a', 'b'))", "Group(Group(Either('a', 'b')) + Group('c'))", "Capture(Capture('a') + Capture('b'))",
+                  "Group(Capture('a'), True)", "Group('a' + Group(Either('b', 'c'), True))", "Exactly(Group(Either('ab', 'cd')), 2)", "Group(AnyFrom('(', ')'))",
+                  "Group(Pregex('(') + ')')", "Group(Pregex(')'))", "Pregex(')') + Group('a')", "Group('a') + Pregex('(?:')", "Group(Pregex(':') + '?')",
+                  "Group(Exactly('a', 2) + Exactly(Either('b', 'c'), 3))", "Either(Either('a', 'b'), Either('c', 'd'))", "Group(Group(Group('a')))",
+                  "Group(FollowedBy('a', 'b'))", "Group(NotPrecededBy('a', Group('b')))", "Group(Backslash() + ')')", "Group(Pregex('a)') )"]
+    look = {'FollowedBy': '{x}(?={y})', 'NotFollowedBy': '{x}(?!{y})', 'PrecededBy': '(?<={y}){x}', 'NotPrecededBy': '(?<!{y}){x}',
+            'EnclosedBy': '(?<={y}){x}(?={y})', 'NotEnclosedBy': '(?<!{y}){x}(?!{y})'}
+    for y in structured:
+        try:
+            ytext = str(dsl.build(y))
+        except Exception as e:  # noqa: BLE001
+            run.add([V(f'C10|structured|{y}', f"{y} raised {type(e).__name__}", 'r = ' + y)])
+            continue
+        for cls, fmt in look.items():
+            for src in (f"{cls}('k', {y})", f"Pregex('k').{FOLD_METHOD[cls]}({y})"):
+                n += 1
+                ref = fmt.format(x='(?:k)', y=ytext)
+                try:
+                    r = dsl.build(src)
+                    v = rx.equiv(str(r), ref)
+                    bad = None if v[0] in ('tree', 'texts', 'error_b') else f'-> {str(r)!r}, not equivalent to {ref!r}: {v[1]}'
+                except Exception as e:  # noqa: BLE001
+                    bad = 'raised ' + type(e).__name__
+                if bad:
+                    run.add([V(f'C10|structured|{src}', f"{src}: {bad} (the assertion pattern {ytext!r} has one fixed width)",
+                               f"from mc import rx\nr = {src}\nv = rx.equiv(str(r), {ref!r})\nassert v[0] in ('tree', 'texts'), (str(r), v)")])
     run.count('variable_width_sweep_cases', n)
     cov['transitions'] += n
     cov['traces_validated_against_impl'] += n
@@ -409,14 +437,14 @@ def run_C08(run):
     L = explore.Level
     gq = dsl.group_ops() + [dsl.Op('capture', ('y',), 1, [('method', "({0}).capture('y')"), ('class', "Capture({0}, 'y')")], None, 'group')]
     opt = [o for o in dsl.quantifier_ops() if o.name == 'optional' and o.params == (True,)]
-    cat = [o for o in dsl.binary_ops() if o.name in ('concat', 'either')]
-    partners = [("Pregex('b')", 'b'), ("Capture('c')", None), ("Capture('c', 'z')", None)]
+    cat = [o for o in dsl.binary_ops() if o.name in ('concat', 'either', 'enclose')]
+    partners = [("Pregex('b')", 'b'), ("Capture('c')", None), ("Capture('c', 'z')", None), ("Capture('a')", None)]
     atoms = al.atom_list(['a', '(', ')', '?:', '?P<', '(?P<x>', '(?i:', '(a)', '(?:a)', 'A', '\\\\', 'a\\\\', '\\\\\\', ':a', '::'],
-                         ["AnyLetter()", "AnyButFrom(')')", "AnyFrom('(', 'a')", "OneOrMore(AnyButFrom(')'))", "AnyFrom('?', ':')", "Either('a', 'B')", "FollowedBy(Pregex(), 'b')", "NotPrecededBy(Pregex(), 'b')",
+                         ["AnyLetter()", "AnyFrom(')', '\\n')", "AnyFrom('(', '\\n')", "AnyButFrom(')')", "AnyFrom('(', 'a')", "OneOrMore(AnyButFrom(')'))", "AnyFrom('?', ':')", "Either('a', 'B')", "FollowedBy(Pregex(), 'b')", "NotPrecededBy(Pregex(), 'b')",
                           "FollowedBy('a', 'b')", "Conditional('n', 'a')", "Conditional('n', 'a', 'B')", 'Backreference(1)',
                           "Backreference('n')", "Capture('a')", "Capture('a', 'x')", "Group('a', True)", "Group('aB')", 'Pregex()'])
     depth = 4 if run.tier == 'quick' else 5
-    levels = [L(gq + opt, cat[:1] if i else cat, partners, (0, 1), f'depth {i + 1}: capture()/capture(x)/capture(y)/group()/group(True)/optional, concat with b, (c), (?P<z>c)')
+    levels = [L(gq + opt, cat[:1] if i else cat, partners if i == 0 else partners[:3], (0, 1), f'depth {i + 1}: capture()/capture(x)/capture(y)/group()/group(True)/optional, concat with b, (c), (?P<z>c)')
               for i in range(depth)]
     res = explore.run(dsl.safe_atoms(atoms, run), levels, [monitors.C08()], nested_tail=(run.tier != 'quick'))
     run.add(res['violations'])
